@@ -23,7 +23,9 @@ import (
 	"github.com/daeuniverse/dae/component/routing"
 	"github.com/daeuniverse/dae/config"
 	"github.com/daeuniverse/dae/pkg/config_parser"
+	"github.com/daeuniverse/dae/pkg/geodata"
 	"github.com/sirupsen/logrus"
+	"google.golang.org/protobuf/proto"
 )
 
 type s04Rule = config_parser.RoutingRule
@@ -97,42 +99,169 @@ type s04Env struct {
 	atomM  map[s04Atom]any
 	stats  *VStats
 	stages []string
+	lf     *assets.LocationFinder
+}
+
+// ---------------------------------------------------------------- geodata fixture (ground truth kept in memory)
+
+var s04Sites = map[string][]s04Param{
+	"ONE":   {{Key: "full", Val: "a.com"}},
+	"TWO":   {{Key: "suffix", Val: "x.org"}, {Key: "keyword", Val: "a.c"}},
+	"EMPTY": {},
+}
+
+func s04WriteGeo(dir string) error {
+	l := &geodata.GeoSiteList{}
+	for _, code := range []string{"ONE", "TWO", "EMPTY"} {
+		e := &geodata.GeoSite{CountryCode: code}
+		for _, p := range s04Sites[code] {
+			t := map[string]geodata.Domain_Type{"full": geodata.Domain_Full, "suffix": geodata.Domain_RootDomain, "keyword": geodata.Domain_Plain}[p.Key]
+			d := &geodata.Domain{Type: t, Value: p.Val}
+			if code == "TWO" && p.Key == "suffix" {
+				d.Attribute = []*geodata.Domain_Attribute{{Key: "x"}}
+			}
+			e.Domain = append(e.Domain, d)
+		}
+		l.Entry = append(l.Entry, e)
+	}
+	b, err := proto.Marshal(l)
+	if err != nil {
+		return err
+	}
+	return os.WriteFile(filepath.Join(dir, "geosite.dat"), b, 0o644)
+}
+
+// documented expansion of `geosite:code[@attr]` for this fixture.
+func s04Expected(val string) ([]s04Param, bool) {
+	code, attr, _ := strings.Cut(val, "@")
+	ps, ok := s04Sites[strings.ToUpper(code)]
+	if !ok {
+		return nil, false
+	}
+	if attr == "" {
+		return ps, true
+	}
+	out := []s04Param{}
+	if strings.ToUpper(code) == "TWO" && strings.EqualFold(attr, "x") {
+		out = append(out, ps[0])
+	}
+	return out, true
+}
+
+// the stages the harness can run: the list found in the source if made of known optimizers, else the
+// documented one.
+func s04Usable(found []string) []string {
+	def := []string{"DatReaderOptimizer", "MergeAndSortRulesOptimizer", "DeduplicateParamsOptimizer"}
+	if len(found) == 0 {
+		return def
+	}
+	for _, n := range found {
+		switch n {
+		case "AliasOptimizer", "DatReaderOptimizer", "MergeAndSortRulesOptimizer", "DeduplicateParamsOptimizer":
+		default:
+			return def
+		}
+	}
+	return found
+}
+
+// The four matchers as production builds them: the REAL NewWithOption on a config.Dns holding the
+// rule list (upstream initialisation, optimizer chain, SplitRequestRules, RequestMatcher builder,
+// the three compileMatcher calls).
+func (e *s04Env) production(rules []*s04Rule) (map[string]*s04Matcher, bool) {
+	cfg := &config.Dns{Upstream: []config.KeyableString{"alidns:udp://223.5.5.5:53", "googledns:udp://8.8.8.8:53", "cf:udp://1.1.1.1:53"}}
+	cfg.Routing.Request.Rules = rules
+	cfg.Routing.Request.Fallback = "asis"
+	cfg.Routing.Response.Fallback = "accept"
+	r, err := NewWithOption(e.log, &config.Global{}, cfg, &NewOption{LocationFinder: e.lf})
+	if err != nil {
+		return nil, false
+	}
+	if r == nil { // no rule at all: production uses no router
+		return map[string]*s04Matcher{}, true
+	}
+	return map[string]*s04Matcher{
+		"sub":     {cat: "sub", sub: r.subMatcher},
+		"node":    {cat: "node", nd: r.nodeMatcher},
+		"subnode": {cat: "subnode", nd: r.subNodeMatcher},
+		"dns":     {cat: "dns", rq: r.requestMatcher},
+	}, true
 }
 
 var s04UpNames = []string{"alidns", "googledns", "cf"}
 
-// the optimizer list of NewWithOption, read from the source of the repo under test.
-func s04Stages() []string {
+// NewWithOption's normalising call, read from the source of the repo under test: optimizer types in
+// order, fields set on an optimizer literal other than Logger / LocationFinder, and whether the
+// arguments have the expected shape (<x>.Rules, <x>.Fallback, inline literals).  The decisions of this
+// stream come from the REAL NewWithOption, so the rest of its glue is executed, not read.
+func s04ExprStr(e ast.Expr) string {
+	switch x := e.(type) {
+	case *ast.Ident:
+		return x.Name
+	case *ast.SelectorExpr:
+		return s04ExprStr(x.X) + "." + x.Sel.Name
+	}
+	return "?"
+}
+
+func s04ReadSite() (names []string, line string) {
 	repo := os.Getenv("VERIF_REPO")
 	if repo == "" {
 		repo = "/repo"
 	}
+	glue := "ok"
+	var fields []string
 	f, err := parser.ParseFile(token.NewFileSet(), filepath.Join(repo, "component/daedns/router.go"), nil, 0)
 	if err != nil {
-		return []string{"parse-error"}
+		return nil, "pipeline= fields=none glue=source-not-parsed"
 	}
-	var out []string
+	var call *ast.CallExpr
 	ast.Inspect(f, func(n ast.Node) bool {
-		call, ok := n.(*ast.CallExpr)
-		if !ok || len(out) > 0 {
-			return true
-		}
-		sel, ok := call.Fun.(*ast.SelectorExpr)
-		if !ok || sel.Sel.Name != "NewNormalizedRequestRoutingProgram" {
-			return true
-		}
-		for _, a := range call.Args {
-			if u, ok := a.(*ast.UnaryExpr); ok {
-				if cl, ok := u.X.(*ast.CompositeLit); ok {
-					if t, ok := cl.Type.(*ast.SelectorExpr); ok {
-						out = append(out, t.Sel.Name)
-					}
-				}
+		if c, ok := n.(*ast.CallExpr); ok && call == nil {
+			if sel, ok := c.Fun.(*ast.SelectorExpr); ok && sel.Sel.Name == "NewNormalizedRequestRoutingProgram" && len(c.Args) > 2 {
+				call = c
 			}
 		}
 		return true
 	})
-	return out
+	if call == nil {
+		return nil, "pipeline= fields=none glue=call-not-found"
+	}
+	a0, ok0 := call.Args[0].(*ast.SelectorExpr)
+	a1, ok1 := call.Args[1].(*ast.SelectorExpr)
+	if !ok0 || !ok1 || a0.Sel.Name != "Rules" || a1.Sel.Name != "Fallback" || s04ExprStr(a0.X) != s04ExprStr(a1.X) {
+		glue = "rules-and-fallback-not-of-one-value"
+	}
+	for _, a := range call.Args[2:] {
+		u, ok := a.(*ast.UnaryExpr)
+		var cl *ast.CompositeLit
+		if ok {
+			cl, ok = u.X.(*ast.CompositeLit)
+		}
+		if !ok {
+			glue = "optimizer-not-an-inline-literal"
+			continue
+		}
+		name := s04ExprStr(cl.Type)
+		if i := strings.LastIndex(name, "."); i >= 0 {
+			name = name[i+1:]
+		}
+		names = append(names, name)
+		for _, el := range cl.Elts {
+			if kv, ok := el.(*ast.KeyValueExpr); ok {
+				if k := s04ExprStr(kv.Key); k != "Logger" && k != "LocationFinder" {
+					fields = append(fields, name+"."+k)
+				}
+			} else {
+				fields = append(fields, name+".<positional>")
+			}
+		}
+	}
+	fs := "none"
+	if len(fields) > 0 {
+		fs = strings.Join(fields, ",")
+	}
+	return names, "pipeline=" + strings.Join(names, ",") + " fields=" + fs + " glue=" + glue
 }
 
 func (e *s04Env) optimizers() []routing.RulesOptimizer {
@@ -142,7 +271,7 @@ func (e *s04Env) optimizers() []routing.RulesOptimizer {
 		case "AliasOptimizer":
 			out = append(out, &routing.AliasOptimizer{})
 		case "DatReaderOptimizer":
-			out = append(out, &routing.DatReaderOptimizer{Logger: e.log, LocationFinder: assets.NewLocationFinder(nil)})
+			out = append(out, &routing.DatReaderOptimizer{Logger: e.log, LocationFinder: e.lf})
 		case "MergeAndSortRulesOptimizer":
 			out = append(out, &routing.MergeAndSortRulesOptimizer{})
 		case "DeduplicateParamsOptimizer":
@@ -311,6 +440,9 @@ func s04GenParam(r *VRand, name string) *s04Param {
 			return &s04Param{Key: "link_keyword", Val: s04Pick(r, s04LinkKw)}
 		}
 	case "qname":
+		if r.Chance(0.25) {
+			return &s04Param{Key: "geosite", Val: s04Pick(r, []string{"one", "two", "two@x", "two@nosuch", "empty", "ONE"})}
+		}
 		if r.Bool() {
 			return &s04Param{Key: "suffix", Val: s04Pick(r, s04Suffix)}
 		}
@@ -325,6 +457,11 @@ func s04GenFunc(r *VRand, name string, neg bool) *s04Func {
 	n := 1 + r.Intn(3)
 	for i := 0; i < n; i++ {
 		p := s04GenParam(r, name)
+		if name != "qname" && name != "qtype" && r.Chance(0.04) {
+			// a geodata reference inside an internal selector: only an EMPTY expansion gets past the
+			// selector compiler's key check, and it must not turn the selector into the catch-all
+			p = &s04Param{Key: "geosite", Val: s04Pick(r, []string{"empty", "two@nosuch", "one"})}
+		}
 		f.Params = append(f.Params, p)
 		if r.Chance(0.2) {
 			f.Params = append(f.Params, &s04Param{Key: p.Key, Val: p.Val})
@@ -452,15 +589,49 @@ func (e *s04Env) runProgram(o *s04Out, r *VRand, tag string, rules []*s04Rule, n
 			labelToks = append(labelToks, fmt.Sprintf("%s F %d 0 0", sb.String(), e.ups[rule.Outbound.Name]))
 		}
 	}
-	var atoms []s04Atom
-	seen := map[s04Atom]bool{}
+	// geodata references -> documented expansion (from the fixture's ground truth)
+	var geoToks []string
+	seenGeo := map[string]bool{}
 	for _, rule := range rules {
 		for _, f := range rule.AndFunctions {
 			for _, p := range f.Params {
-				a := s04Atom{f.Name, p.Key, p.Val}
-				if !seen[a] {
-					seen[a] = true
-					atoms = append(atoms, a)
+				if p.Key != "geosite" || seenGeo[p.Val] {
+					continue
+				}
+				seenGeo[p.Val] = true
+				ps, ok := s04Expected(p.Val)
+				if !ok {
+					geoToks = append(geoToks, "site geosite "+s04Tok(p.Val)+" !")
+					continue
+				}
+				if len(ps) == 0 {
+					st.Inc("gen.geodata_empty_expansion")
+				}
+				var sb strings.Builder
+				fmt.Fprintf(&sb, "site geosite %s %d", s04Tok(p.Val), len(ps))
+				for _, q := range ps {
+					sb.WriteString(" " + s04Tok(q.Key) + " " + s04Tok(q.Val))
+				}
+				geoToks = append(geoToks, sb.String())
+			}
+		}
+	}
+	datOnly := func() []routing.RulesOptimizer {
+		return []routing.RulesOptimizer{&routing.DatReaderOptimizer{Logger: e.log, LocationFinder: e.lf}}
+	}
+	// the rules as expanded by the real dat stage: atoms, brute-force spec
+	E, errE := routing.ApplyRulesOptimizers(rules, datOnly()...)
+	var atoms []s04Atom
+	if errE == nil {
+		seen := map[s04Atom]bool{}
+		for _, rule := range E {
+			for _, f := range rule.AndFunctions {
+				for _, p := range f.Params {
+					a := s04Atom{f.Name, p.Key, p.Val}
+					if !seen[a] {
+						seen[a] = true
+						atoms = append(atoms, a)
+					}
 				}
 			}
 		}
@@ -475,14 +646,20 @@ func (e *s04Env) runProgram(o *s04Out, r *VRand, tag string, rules []*s04Rule, n
 		opt = s04SerProg(normalised)
 	}
 	prog, perr := componentdns.NewNormalizedRequestRoutingProgram(rules, config.FunctionOrString("asis"), e.optimizers()...)
+	progRaw, rerr := componentdns.NewNormalizedRequestRoutingProgram(rules, config.FunctionOrString("asis"), datOnly()...)
+	prod, pok := e.production(rules)
+	if pok {
+		st.Inc("programs_built_by_real_NewWithOption")
+	} else {
+		st.Inc("programs_rejected_by_real_NewWithOption")
+	}
 	inputs := append([]*s04Input(nil), fixed...)
 	for i := 0; i < nInputs; i++ {
 		inputs = append(inputs, s04GenInput(r))
 	}
-	changed := err == nil && opt != s04SerProg(rules)
+	changed := err == nil && errE == nil && opt != s04SerProg(E)
 	for _, cat := range []string{"sub", "node", "subnode", "dns"} {
 		split := "err"
-		var m *s04Matcher
 		if perr == nil {
 			switch cat {
 			case "sub":
@@ -494,14 +671,14 @@ func (e *s04Env) runProgram(o *s04Out, r *VRand, tag string, rules []*s04Rule, n
 			default:
 				split = fmt.Sprint(len(prog.Rules))
 			}
-			var ok bool
-			m, ok = e.compileCat(cat, prog)
-			if !ok {
-				m = nil
-				st.Inc(cat + ".compile_error")
-			}
 		} else {
-			st.Inc(cat + ".split_error")
+			st.Inc(cat + ".split_or_opt_error")
+		}
+		var mRaw *s04Matcher
+		if rerr == nil {
+			if mm, ok := e.compileCat(cat, progRaw); ok {
+				mRaw = mm
+			}
 		}
 		backend, fbTok, fbDec, gn := "sel", "9999 0 0", "9999.0.0", "GN 0"
 		if cat == "dns" {
@@ -512,15 +689,15 @@ func (e *s04Env) runProgram(o *s04Out, r *VRand, tag string, rules []*s04Rule, n
 		if cat == "subnode" {
 			gn = "GN 1 subnode"
 		}
-		op := fmt.Sprintf("P %s %s 0 G 0 L %d %s FB %s A %d %s %s %s", backend, cat, len(labelToks), strings.Join(labelToks, " "),
-			fbTok, len(atoms), strings.Join(atomToks, " "), gn, s04SerProg(rules))
+		op := fmt.Sprintf("P %s %s 0 G %d %s L %d %s FB %s A %d %s %s %s", backend, cat, len(geoToks), strings.Join(geoToks, " "),
+			len(labelToks), strings.Join(labelToks, " "), fbTok, len(atoms), strings.Join(atomToks, " "), gn, s04SerProg(rules))
 		op = strings.Join(strings.Fields(op), " ")
 		o.emit(op, "opt="+opt+" split="+split, s04Descr{Kind: "P", Backend: "daedns/" + cat, Tag: tag, Text: s04Text(rules), Fb: "(none)", Changed: changed})
 		st.Inc(cat + ".programs")
 		if changed {
 			st.Inc(cat + ".programs_changed_by_normalisation")
 		}
-		if err != nil {
+		if errE != nil {
 			continue
 		}
 		for _, in := range inputs {
@@ -555,16 +732,26 @@ func (e *s04Env) runProgram(o *s04Out, r *VRand, tag string, rules []*s04Rule, n
 				}
 			}
 			dec := "err"
-			if m != nil {
-				dec = m.decide(e, in)
+			if pok {
+				if m := prod[cat]; m != nil {
+					dec = m.decide(e, in)
+				} else {
+					dec = fbDec // no router at all
+				}
 			}
-			spec := s04SpecCat(cat, rules, truth, in.tag != "", e.ups, fbDec)
-			o.emit("q "+bs+" "+gb, "dec="+dec+" spec="+spec, s04Descr{Kind: "q", Pkt: in.String(cat)})
+			raw := "err"
+			if mRaw != nil {
+				raw = mRaw.decide(e, in)
+			}
+			spec := s04SpecCat(cat, E, truth, in.tag != "", e.ups, fbDec)
+			o.emit("q "+bs+" "+gb, "dec="+dec+" spec="+spec+" raw="+raw, s04Descr{Kind: "q", Pkt: in.String(cat)})
 			st.Inc(cat + ".evaluations")
 			if dec == fbDec {
 				st.Inc(cat + ".decision.none_or_fallback")
 			} else if dec != "err" {
 				st.Inc(cat + ".decision.rule")
+			} else {
+				st.Inc(cat + ".decision.build_error")
 			}
 		}
 	}
@@ -601,8 +788,18 @@ func TestVerifC04Sel(t *testing.T) {
 	env := &s04Env{log: log, ups: map[string]uint8{"alidns": 0, "googledns": 1, "cf": 2}, atomM: map[s04Atom]any{}, stats: stats}
 	env.r = &Router{log: log, upstreams: map[string]*componentdns.UpstreamResolver{"alidns": {}, "googledns": {}, "cf": {}}}
 
-	env.stages = s04Stages()
-	out.emit("pipeline daedns "+s04Tok(strings.Join(env.stages, ",")), "pipeline="+strings.Join(env.stages, ","), s04Descr{Kind: "pipeline", Backend: "daedns", Text: env.stages})
+	geoDir := filepath.Join(VOutDir(), "c04selgeo")
+	if err := os.MkdirAll(geoDir, 0o755); err != nil {
+		t.Fatal(err)
+	}
+	if err := s04WriteGeo(geoDir); err != nil {
+		t.Fatal(err)
+	}
+	os.Unsetenv("DAE_LOCATION_ASSET")
+	env.lf = assets.NewLocationFinder([]string{geoDir})
+	found, siteLine := s04ReadSite()
+	env.stages = s04Usable(found)
+	out.emit("pipeline daedns "+s04Tok(strings.Join(found, ",")), siteLine, s04Descr{Kind: "pipeline", Backend: "daedns", Text: found})
 
 	fixed := []*s04Input{
 		{tag: "my_sub", link: "https://a.example/sub", name: "hk-1", qname: "a.com", qtype: 1},
@@ -612,6 +809,9 @@ func TestVerifC04Sel(t *testing.T) {
 	for _, w := range []struct{ tag, body string }{
 		{"c04-merge-negated", "!node(hk-1) -> alidns\n!node(jp-2) -> alidns\nnode(hk-1) -> googledns"},
 		{"c04-merge-negated", "!subnode(subtag: my_sub) -> alidns\n!subnode(subtag: other) -> alidns\nsubnode(my_sub) -> cf"},
+		{"c04-selector-empty-expansion-catchall", "node(geosite: two@nosuch) -> alidns\nnode(hk-1) -> cf"},
+		{"c04-selector-empty-expansion-catchall", "sub(geosite: empty) -> googledns"},
+		{"c04-selector-empty-expansion-catchall", "qtype(a) && qname(geosite: empty) -> alidns\nsubnode(my_sub) -> cf"},
 		{"keep-merge", "node(hk-1) -> alidns\nnode(name_keyword: jp) -> alidns\nqname(suffix: a.com) -> alidns\nsub(my_sub) -> alidns\nsub(tag: other, my_sub) -> alidns"},
 		{"keep-split-order", "subnode(subtag: my_sub) && subnode(name_keyword: hk) -> alidns\nnode(hk-1) -> cf\nsubnode(name: hk-1) -> googledns\nqtype(aaaa) -> cf"},
 	} {
